@@ -1597,6 +1597,30 @@ impl World {
                 }
             }
         }
+        // a member that spends an output of a stake transaction of the same batch (a change output, index >= 1, or the
+        // staked coin itself): refused as a batch on the pinned code; the point is that every way of applying it agrees
+        if hostile_at.is_none() && self.rng.chance(1, 3) {
+            if let Some(si) = (0..txs.len()).find(|i| txs[*i].kind == TxKind::Stake) {
+                let stx = txs[si].clone();
+                let k = if stx.outputs.len() > 1 && self.rng.chance(3, 4) { 1 + self.rng.usize(stx.outputs.len() - 1) } else { 0 };
+                let coin = (stx.output_coinid(k as u8), CoinDataHeight { coin_data: stx.outputs[k].clone(), height: BlockHeight(height) });
+                let mut ins = vec![];
+                if coin.1.coin_data.denom != Denom::Mel || coin.1.coin_data.value.0 == 0 {
+                    if let Some(mel) = saved_utxo.iter().find(|(i, c)| c.coin_data.denom == Denom::Mel && !used.contains(*i) && c.coin_data.value.0 <= MAX_COINVAL && c.coin_data.value.0 > 0 && self.unlock.contains_key(&c.coin_data.covhash)) {
+                        ins.push((*mel.0, mel.1.clone()));
+                    }
+                }
+                let have_mel = !ins.is_empty() || coin.1.coin_data.denom == Denom::Mel;
+                ins.push(coin);
+                if have_mel && self.unlock.contains_key(&stx.outputs[k].covhash) {
+                    self.learn_tx(&stx);
+                    if let Some(sp) = self.complete(TxKind::Normal, ins, vec![], vec![], 0) {
+                        txs.push(sp);
+                        labels.push(format!("normal+hostile:spender-of-member-stake-output-{}", if k == 0 { "0" } else { "1+" }));
+                    }
+                }
+            }
+        }
         self.utxo = saved_utxo;
         match self.rng.below(4) {
             0 => {
